@@ -144,8 +144,9 @@ pub fn rule_fields(v: &Y, out: &mut Vec<String>) {
     }
 }
 
-fn exercise(rep: &mut Report, rng: &mut Rng, text: &str, rule: &tau_engine::Rule, fields: &[String], ndocs: usize) {
-    let docs: Vec<DVal> = (0..ndocs).map(|_| hostile_doc(rng, fields)).collect();
+fn exercise(rep: &mut Report, rng: &mut Rng, text: &str, rule: &tau_engine::Rule, fields: &[String], ndocs: usize, aware: &[DVal]) {
+    let mut docs: Vec<DVal> = (0..ndocs).map(|_| hostile_doc(rng, fields)).collect();
+    docs.extend(aware.iter().cloned());
     let maps: Vec<serde_yaml::Mapping> = docs.iter().map(to_yaml_map).collect();
     // a flat document that answers every addressed key literally, with arbitrary kinds
     let flat = FlatDoc { table: fields.iter().map(|f| (f.clone(), to_myval(&hostile_value(rng, 0)))).collect(), log: None };
@@ -208,9 +209,9 @@ pub fn child(ctx: &Ctx) -> i32 {
                 rep.truncated = true;
                 break;
             }
-            let mut ast = gen::gen_rule(&mut rng, &cfg);
+            let mut ast = if n % 60 == 11 { gen::wide_matrix_rule(&mut rng) } else { gen::gen_rule(&mut rng, &cfg) };
             let names: Vec<String> = ast.idents.iter().map(|(n, _)| n.clone()).collect();
-            let kind = rng.below(5);
+            let kind = if n % 60 == 11 { 4 } else { rng.below(5) };
             // examples: mappings and (stream d) non-mapping entries
             let leaves = gen::collect_leaves(&ast);
             ast.tp = (0..rng.below(3)).map(|_| gen::gen_doc(&mut rng, &leaves)).collect();
@@ -270,7 +271,10 @@ pub fn child(ctx: &Ctx) -> i32 {
                 }
             }
             rep.nontrivial_key(&format!("{}|{}", kind, eng::printed(&rule)));
-            exercise(&mut rep, &mut rng, &text, &rule, &fields, ctx.size(4, 6));
+            // rule-aware documents as well: they reach late needles of wide lists and late
+            // columns of wide matrices
+            let aware: Vec<DVal> = (0..3).map(|_| gen::gen_doc(&mut rng, &leaves)).collect();
+            exercise(&mut rep, &mut rng, &text, &rule, &fields, ctx.size(4, 6), &aware);
             if n == 0 && shard < 4 {
                 rep.sample(json!({"stream": kind, "rule": text, "switch_sets": 16, "documents": ctx.size(4, 6) + 1}));
             }
